@@ -4,12 +4,8 @@
 //!        ipt-verif <ID> --replay <file>
 //! env:   VERIF_SEED (default 1), VERIF_DIR (default /verif)
 
-mod engine;
-mod gen;
-mod oracle;
-mod props;
-
-use engine::{RunOpts, Tier};
+use ipt_verif::engine::{self, RunOpts, Tier};
+use ipt_verif::props;
 
 fn main() {
     engine::install_panic_recorder();
